@@ -91,7 +91,7 @@ add("C16", "model_checking",
     "DESIGN.md 2/C16", "E2+E5")
 
 add("C13", "model_checking",
-    "Exhaustive exploration of the program space 'stack x API operation': the layer grammar is enumerated as a state space (states = well-kinded stacks up to the depth bound; quick = pairwise adjacency cover, thorough = every stack to depth 4 for all 16 (N,M) and depth 5 for five), "
+    "Exhaustive exploration of the program space 'stack x API operation': the layer grammar is enumerated as a state space (states = well-kinded stacks up to the depth bound; quick = pairwise adjacency cover plus every stack to depth 3 for two (N,M), thorough = every stack to depth 4 for all 16 (N,M) and depth 5 for five), "
     "and for each state (after a sizeof pre-pass on the tree under test removes stacks the library itself declares too large) the whole API script is type-checked by the real compiler with function bodies instantiated; the ill-kinded catalogue must be rejected with the layer's own diagnostic while its twin compiles; cuda_device_array is checked under a header shim of the CUDA runtime.",
     "g++12 as type checker; default construction and conversions the library never offered are not demanded; type parameters rotated rather than multiplied",
     "exhaustive enumeration of the stack grammar (bounded depth) x API operations, each compiled against the implementation",
